@@ -296,6 +296,27 @@ theorem main_openInput {ζ τ : Type} (E : GoTie.MainEnv ζ τ) (ap : Bytes → 
       .error (.panic 1010) :=
   GoTie.main_openInput E ap a hfc inputName hname hArg f e hOpen hAP hNL hFd t0
 
+/-- no `-o`, nothing is a terminal: the mode function writes to standard output itself; nothing is closed or copied after it -/
+theorem main_dispatch_stdout {ζ τ : Type} (E : GoTie.MainEnv ζ τ) (ap : Bytes → Bytes) (a : Cli.Args) (hfc : Cli.flagCheck a = none)
+    (hArg : ∀ t, E.Arg 0 t = .ok ([], t)) (hSet : ∀ b t, E.SetStdin b t = .ok t) (hFd : ∀ z t, E.Fd z t = .ok (0, t))
+    (hIsT : ∀ n t, E.IsT n t = .ok (false, t)) (hAP : E.AP = GoTie.main_pureAP ap)
+    (hout : a.output = [] ∨ a.output = [45]) (t0 : τ) :
+    E.run a.output a.decrypt a.encrypt a.passphrase a.armor a.recipients a.recipientsFiles (a.identities.map GoTie.main_toFlag) t0 =
+      E.mode a E.stdin E.stdout t0 :=
+  GoTie.main_dispatch_stdout E ap a hfc hArg hSet hFd hIsT hAP hout t0
+
+/-- armored encryption from a terminal to a terminal: into a buffer that is copied to standard output when `main` returns,
+    whatever that copy reports (the model's `Dest.buffered`) -/
+theorem main_dispatch_buffered {ζ τ : Type} (E : GoTie.MainEnv ζ τ) (ap : Bytes → Bytes) (a : Cli.Args) (hfc : Cli.flagCheck a = none)
+    (hArg : ∀ t, E.Arg 0 t = .ok ([], t)) (hSet : ∀ b t, E.SetStdin b t = .ok t) (hFd : ∀ z t, E.Fd z t = .ok (0, t))
+    (hIsT : ∀ n t, E.IsT n t = .ok (true, t)) (hAP : E.AP = GoTie.main_pureAP ap) (hsame : E.same E.stdin E.stdin = true)
+    (hout : a.output = []) (hd : a.decrypt = false) (harm : a.armor = true) (t0 : τ) :
+    E.run a.output a.decrypt a.encrypt a.passphrase a.armor a.recipients a.recipientsFiles (a.identities.map GoTie.main_toFlag) t0 =
+      (do let t2 ← E.mode a E.stdin E.bufV t0
+          let c ← E.Cp E.stdout E.bufV t2
+          pure c.2.2) :=
+  GoTie.main_dispatch_buffered E ap a hfc hArg hSet hFd hIsT hAP hsame hout hd harm t0
+
 /-! ### The pieces fit together
 
 The abstract callee of one translated function, instantiated with the TRANSLATED definition of the
